@@ -286,6 +286,8 @@ def run_case(case, ctx):
         ctx.count("underflow_domain_points")   # an intermediate below ~1e-308 is flushed to zero by doubles
         continue
       vs, m = o.vscale(rr), o.mag(rr)
+      if m == mp.mpf("inf"):
+        raise R.RefDomainError("no magnitude bound at this point")
       s1, s2 = o.dscale(rr, 1), o.dscale(rr, 2)
     except (R.RefDomainError, ZeroDivisionError, ValueError, OverflowError):
       ctx.count("out_of_domain_points")
